@@ -1,6 +1,7 @@
 from collections import defaultdict
 from collections.abc import Callable
 from dataclasses import dataclass, field
+from math import lcm
 from typing import cast
 
 from minimalloc import Buffer, Problem  # pyright: ignore[reportMissingTypeStubs]
@@ -302,10 +303,14 @@ class MiniMallocate(RewritePattern):
         )
         for memory in memory_spaces:
             buffers_subset = [buffer for buffer in buffers if buffer_ops[buffer.id].memory_space == memory.attribute]
-            problem = Problem(buffers_subset, memory.capacity)
+            # the solution is aligned relative to offset 0, so offset 0 must be
+            # at an address that satisfies the alignment of every buffer
+            alignment = lcm(*(buffer.alignment for buffer in buffers_subset if buffer.alignment))
+            base_address = memory.start + (-memory.start % alignment)
+            problem = Problem(buffers_subset, memory.capacity - (base_address - memory.start))
             solution = problem.solve()
             for buffer, offset in zip(buffers_subset, solution):
-                pointer_result[buffer.id] = offset + memory.start
+                pointer_result[buffer.id] = offset + base_address
 
         # Now, generate constant ops for the pointers
         for buffer in buffers:
